@@ -69,11 +69,30 @@ func main() {
 		}
 		fail := func(what string) { failc("array-model", what) }
 		l := initLen
-		t := 0
+		tick := 0
+		const mark = burndown.TreeMergeMark
+		isMark := func(v int) bool { return v&mark == mark }
+		// value mode of the case: 0 plain ticks, 1 packed authors, 2 plain + merge marks, 3 packed + merge marks
+		mode := rng.Intn(4)
+		if it%2 == 0 {
+			mode = 0
+		}
+		want := map[int]int{} // the histogram the reports must add up to (property C03)
+		if initLen > 0 {
+			want[0] = initLen
+		}
 		n := 1 + rng.Intn(maxOps)
 		for i := 0; i < n; i++ {
 			if rng.Intn(2) == 0 {
-				t += rng.Intn(2)
+				tick += rng.Intn(2)
+			}
+			t := tick
+			if mode >= 2 && rng.Intn(4) == 0 {
+				t = mark
+				stats["mark-ops"]++
+			}
+			if mode == 1 || mode == 3 {
+				t |= rng.Intn(3) << burndown.TreeMaxBinPower
 			}
 			pos := rng.Intn(l + 1)
 			del := 0
@@ -108,7 +127,20 @@ func main() {
 				}()
 				f.Update(t, pos, ins, del)
 			}()
-			if malformed != panicked {
+			markClash := false
+			if !malformed {
+				for _, v := range arr[pos : pos+del] {
+					if isMark(v) && v != t {
+						markClash = true // updateTime refuses a report whose previous value is a merge mark
+					}
+				}
+			}
+			if markClash {
+				stats["mark-clash"]++
+				if !panicked {
+					fail("deleting merge-marked lines with another stamp was accepted")
+				}
+			} else if malformed != panicked {
 				if malformed && ins == 0 && del == 0 {
 					// decidable class of the known finding C03-noop-beyond-end
 					failc("noop-beyond-end", "Update(t, pos>len, 0, 0) returns without a panic (state unchanged)")
@@ -125,6 +157,17 @@ func main() {
 			}
 			fmt.Fprintf(wi, "ok %s | %s\n", dump(f), strings.Join(em, " "))
 			// the array statement of the property
+			if (ins != 0 || del != 0) && !isMark(t) {
+				for _, v := range arr[pos : pos+del] {
+					want[v]--
+					if want[v] == 0 {
+						delete(want, v)
+					}
+				}
+				if ins > 0 {
+					want[t] += ins
+				}
+			}
 			if ins != 0 || del != 0 {
 				na := append([]int{}, arr[:pos]...)
 				for k := 0; k < ins; k++ {
@@ -140,10 +183,6 @@ func main() {
 				fail(fmt.Sprintf("lines %v, array says %v", got, arr))
 				break
 			}
-			want := map[int]int{}
-			for _, v := range arr {
-				want[v]++
-			}
 			// hist started without the initial lines: NewFile reports them through the updater as well
 			bad := false
 			for k, v := range want {
@@ -157,7 +196,7 @@ func main() {
 				}
 			}
 			if bad {
-				fail(fmt.Sprintf("histogram %v, array histogram %v", hist, want))
+				fail(fmt.Sprintf("reported histogram %v, expected %v", hist, want))
 				break
 			}
 		}
